@@ -216,7 +216,9 @@ class EpisodeMonitor:
             self.stats[s["name"]] = (h + 1, m_) if hit_lookup else (h, m_ + 1)
             if o["kind"] == "suspended":
                 self.ev("c20-suspended")
-                self.suspended[cid] = (fi, o["key"], o["would"])
+                # the value is unique to this call only if it embeds the call's counter (not e.g. `None`)
+                uniq = p[4].encode().hex() in o["would"]
+                self.suspended[cid] = (fi, o["key"], o["would"] if uniq else None)
                 if o["blocked"]:
                     self.fail("C20", f"{op}: while the call is suspended at its await a conditional invalidation of the same cache did not complete (a cache lock is held across the await)")
                 # the lookup phase must not create or change any entry
@@ -241,7 +243,7 @@ class EpisodeMonitor:
                 fi, key, would = self.suspended.pop(cid)
                 if prev is not None and prev != dumps:
                     self.fail("C20", f"{op}: dropping the suspended call changed the cache contents")
-                if not self.det:
+                if not self.det and would is not None:
                     for lbl, d in dumps.items():
                         if d and any(v[0] == would for v in d[0].values()):
                             self.fail("C20", f"{op}: the cache holds the value of a call that was dropped before producing it")
@@ -250,8 +252,8 @@ class EpisodeMonitor:
             if cid in self.suspended:
                 self.ev("c20-resumed")
                 fi, key, would = self.suspended.pop(cid)
-                if o["kind"] != "resumed" or o["ret"] != would:
-                    self.fail("C20", f"{op}: the resumed call returned {str(o.get('ret'))[:40]}, its body produced {would[:40]}")
+                if o["kind"] != "resumed" or (would is not None and o["ret"] != would):
+                    self.fail("C20", f"{op}: the resumed call returned {str(o.get('ret'))[:40]}, its body produced {str(would)[:40]}")
                 s = self.spec[fi]
                 if s["cache_if"] and len(o.get("pred", [])) != 1:
                     self.fail("C10", f"{op}: cache_if consulted {len(o.get('pred', []))} times for the resumed body execution")
